@@ -412,6 +412,8 @@ type issued struct {
 	id                 string
 	level              string
 	at                 int64 // virtual ms when the call started
+	end                int64 // virtual ms when the call returned (the gate ran somewhere in [at, end])
+	s0, s1             int   // scheduler steps at call and return: s1 < other.s0 means "returned before the other was called"
 	day                string
 	afterCycleInNewDay bool
 }
@@ -439,7 +441,7 @@ func (s lscen) scenario() dfs.Scenario {
 				for k, cl := range cs {
 					x.Yield(sched.Op{Kind: "op:log"})
 					msg := fmt.Sprintf("%s t%d-call%d payload", cl.id, ti, k)
-					is := &issued{thread: ti, k: k, msg: msg, id: cl.id, level: cl.level, at: nowMs()}
+					is := &issued{thread: ti, k: k, msg: msg, id: cl.id, level: cl.level, at: nowMs(), s0: x.Steps}
 					is.day = dayOf(is.at)
 					is.afterCycleInNewDay = cycleDay[is.day]
 					calls = append(calls, is)
@@ -455,6 +457,7 @@ func (s lscen) scenario() dfs.Scenario {
 					case "println":
 						fl.Println(cl.id, msg)
 					}
+					is.end, is.s1 = nowMs(), x.Steps
 					if s.interval > 0 {
 						vtime.Sleep(4 * time.Second)
 					}
@@ -518,9 +521,14 @@ func (s lscen) scenario() dfs.Scenario {
 					}
 				}
 			}
-			// which calls must appear?
-			lastAccepted := map[string]int64{}
-			sort.SliceStable(calls, func(i, j int) bool { return calls[i].at < calls[j].at })
+			// which calls must appear? The interval gate of a call ran at some instant of [at, end] (a
+			// preempted call may have started long before it looked at the clock), so the oracle
+			// only demands what holds for every such instant:
+			//  - a line that passed the level gate MUST be written if no other call with the same id
+			//    can have set the "last logged" time less than an interval before it: for every other
+			//    call o with that id, at >= o.end + interval (or o lies entirely after this call);
+			//  - a line MUST NOT be written if a written line with the same id certainly set the time
+			//    less than an interval before it: o written, o returned before this call was made, and end < o.at + interval.
 			count := map[string]int{}
 			for _, l := range lines {
 				for _, is := range calls {
@@ -529,45 +537,50 @@ func (s lscen) scenario() dfs.Scenario {
 					}
 				}
 			}
-			sameInstant := map[string]int{}
-			for _, is := range calls {
-				sameInstant[fmt.Sprintf("%s@%d", is.id, is.at)]++
+			keyOf := func(is *issued) string {
+				if is.level == "println" {
+					return is.id
+				}
+				k := is.msg
+				if len(k) > 10 {
+					k = k[:10]
+				}
+				return k
 			}
+			iv := int64(s.interval) * 1000
 			for _, is := range calls {
-				passes := levelNo[is.level] >= s.level
-				if !passes {
+				if levelNo[is.level] < s.level {
 					if count[is.msg] > 0 {
 						return fmt.Sprintf("level-gate: a %s line was written although the level is %d", is.level, s.level)
 					}
 					continue
 				}
-				limited := s.interval > 0 && is.level != "debug"
-				if limited {
-					key := is.id
-					if is.level != "println" {
-						key = is.msg
-						if len(key) > 10 {
-							key = key[:10]
-						}
-					}
-					last, seen := lastAccepted[key]
-					ambiguous := sameInstant[fmt.Sprintf("%s@%d", is.id, is.at)] > 1
-					if seen && is.at < last+int64(s.interval)*1000 {
-						if count[is.msg] > 0 && !ambiguous {
-							return fmt.Sprintf("rate-limit: %q was written although an accepted line with the same id lies %d ms before it (interval %d s)", is.msg, is.at-last, s.interval)
-						}
-						continue
-					}
-					if count[is.msg] == 0 && ambiguous {
-						continue // two threads at the same instant with the same id: either may win
-					}
-					lastAccepted[key] = is.at
-				}
-				if count[is.msg] == 0 {
-					return fmt.Sprintf("lost-line: %q (level %s, thread %d) passed the level and interval gates but is in no log file", is.msg, is.level, is.thread)
-				}
 				if count[is.msg] > 1 {
 					return fmt.Sprintf("duplicate-line: %q appears %d times", is.msg, count[is.msg])
+				}
+				limited := s.interval > 0 && is.level != "debug"
+				mustWrite, mustNot := true, ""
+				if limited {
+					for _, o := range calls {
+						if o == is || keyOf(o) != keyOf(is) || levelNo[o.level] < s.level {
+							continue
+						}
+						if o.s0 > is.s1 {
+							continue // called after this call returned: cannot have influenced it
+						}
+						if is.at < o.end+iv {
+							mustWrite = false
+						}
+						if count[o.msg] > 0 && o.s1 < is.s0 && is.end < o.at+iv {
+							mustNot = o.msg
+						}
+					}
+				}
+				if count[is.msg] == 0 && mustWrite {
+					return fmt.Sprintf("lost-line: %q (level %s, thread %d) passed the level gate, no call with the same id lies within the interval before it, but it is in no log file", is.msg, is.level, is.thread)
+				}
+				if count[is.msg] > 0 && mustNot != "" {
+					return fmt.Sprintf("rate-limit: %q was written although the written line %q with the same id finished less than %d s before it started", is.msg, mustNot, s.interval)
 				}
 			}
 			// per-thread order, and new-day lines after a completed cycle go to the new day's file
